@@ -194,7 +194,7 @@ pub fn one(ctx: &mut Ctx, c: &Case, marks: bool) -> bool {
     } else {
         out_text.clone()
     };
-    if run.rec.work <= 1500 {
+    if run.rec.work <= 20000 {
         ctx.op(&line, &ans);
     } else {
         // still checked against the reference evaluator below
@@ -292,7 +292,34 @@ pub fn gen_case(ctx: &mut Ctx, it: u64, jets: bool) -> Option<Case> {
     Some(Case { plan, wits, input_bits, dirty: ctx.rng.bool() })
 }
 
+/// data-movement programs (see `gen::layout_plan`): all copy lengths at all frame offsets
+pub fn run_layout(ctx: &mut Ctx, marks: bool) {
+    let n = ctx.scale(3000, 60_000);
+    let mut done = 0;
+    for it in 0..20 * n {
+        if done >= n {
+            break;
+        }
+        let plan = if it % 4 == 3 { gen::layout_verdict_plan(&mut ctx.rng.fork()) } else { gen::layout_plan(&mut ctx.rng.fork(), it % 2 == 0, (it % 3) as usize) };
+        if plan.nodes.len() > 150 {
+            continue;
+        }
+        let Ok((red, wits)) = gen::redeem_of_plan(&plan, &mut ctx.rng, false) else {
+            ctx.count("generator:layout-rejected");
+            continue;
+        };
+        let v = gen::random_value(&mut ctx.rng, &red.arrow().source);
+        let input_bits: Vec<bool> = v.iter_compact().collect();
+        let c = Case { plan, wits, input_bits, dirty: ctx.rng.bool() };
+        if one(ctx, &c, marks) {
+            done += 1;
+            ctx.count("reach:layout-family");
+        }
+    }
+}
+
 pub fn run_gen(ctx: &mut Ctx, marks: bool) {
+    run_layout(ctx, marks);
     let n = ctx.scale(1500, 40_000);
     let mut done = 0;
     let mut it = 0u64;
